@@ -33,9 +33,17 @@ func NewSPDX23() *SPDX23 {
 
 func (s *SPDX23) Render(doc interface{}, wr io.Writer, o *native.RenderOptions, _ interface{}) error {
 	// TODO: add support for XML
+	spdxDoc, ok := doc.(*spdx.Document)
+	if !ok {
+		return errors.New("document is not an SPDX 2.3 document")
+	}
+	indent := 0
+	if o != nil {
+		indent = o.Indent
+	}
 	encoder := json.NewEncoder(wr)
-	encoder.SetIndent("", strings.Repeat(" ", o.Indent))
-	if err := encoder.Encode(doc.(*spdx.Document)); err != nil {
+	encoder.SetIndent("", strings.Repeat(" ", indent))
+	if err := encoder.Encode(spdxDoc); err != nil {
 		return fmt.Errorf("encoding sbom to stream: %w", err)
 	}
 
@@ -76,6 +84,9 @@ func (s *SPDX23) Serialize(bom *sbom.Document, _ *native.SerializeOptions, _ int
 	}
 
 	for _, t := range bom.Metadata.Tools {
+		if t == nil {
+			continue
+		}
 		// TODO(degradation): SPDX is prescriptive on how this field is structured
 		// it is a tool identifier word separated from the version with a dash.
 		// We should transform the field value
@@ -108,7 +119,7 @@ func (s *SPDX23) Serialize(bom *sbom.Document, _ *native.SerializeOptions, _ int
 		return nil, fmt.Errorf("building relationships: %w", err)
 	}
 
-	for _, id := range bom.NodeList.RootElements {
+	for _, id := range bom.GetNodeList().GetRootElements() {
 		rels = append(rels, &spdx.Relationship{
 			RefA:                common.MakeDocElementID("", protospdx.DOCUMENT),
 			RefB:                common.MakeDocElementID("", id),
@@ -129,7 +140,10 @@ func (s *SPDX23) Serialize(bom *sbom.Document, _ *native.SerializeOptions, _ int
 
 func buildRelationships(bom *sbom.Document) ([]*spdx.Relationship, error) { //nolint:unparam
 	relationships := []*spdx.Relationship{}
-	for _, e := range bom.NodeList.Edges {
+	for _, e := range bom.GetNodeList().GetEdges() {
+		if e == nil {
+			continue
+		}
 		for _, dest := range e.To {
 			rel := spdx.Relationship{
 				RefA:         common.MakeDocElementID("", e.From),
@@ -145,8 +159,8 @@ func buildRelationships(bom *sbom.Document) ([]*spdx.Relationship, error) { //no
 
 func buildFiles(bom *sbom.Document) ([]*spdx.File, error) { //nolint:unparam
 	files := []*spdx.File{}
-	for _, node := range bom.NodeList.Nodes {
-		if node.Type == sbom.Node_PACKAGE {
+	for _, node := range bom.GetNodeList().GetNodes() {
+		if node == nil || node.Type == sbom.Node_PACKAGE {
 			continue
 		}
 
@@ -189,8 +203,8 @@ func buildFiles(bom *sbom.Document) ([]*spdx.File, error) { //nolint:unparam
 
 func (s *SPDX23) buildPackages(bom *sbom.Document) ([]*spdx.Package, error) { //nolint:unparam
 	packages := []*spdx.Package{}
-	for _, node := range bom.NodeList.Nodes {
-		if node.Type == sbom.Node_FILE {
+	for _, node := range bom.GetNodeList().GetNodes() {
+		if node == nil || node.Type == sbom.Node_FILE {
 			continue
 		}
 
@@ -312,6 +326,9 @@ func (s *SPDX23) buildPackages(bom *sbom.Document) ([]*spdx.Package, error) { //
 		}
 
 		for _, e := range node.ExternalReferences {
+			if e == nil {
+				continue
+			}
 			category := s.extRefCategoryFromProtobomExtRef(e)
 
 			if e.Url == "" {
@@ -334,7 +351,7 @@ func (s *SPDX23) buildPackages(bom *sbom.Document) ([]*spdx.Package, error) { //
 			})
 		}
 
-		if len(node.Suppliers) > 0 {
+		if len(node.Suppliers) > 0 && node.Suppliers[0] != nil {
 			// TODO(degradation): URL, Phone are lost if set
 			// TODO(degradation): If is more than one supplier, it will be lost
 			p.PackageSupplier = &spdx.Supplier{
@@ -343,7 +360,7 @@ func (s *SPDX23) buildPackages(bom *sbom.Document) ([]*spdx.Package, error) { //
 			}
 		}
 
-		if len(node.Originators) > 0 {
+		if len(node.Originators) > 0 && node.Originators[0] != nil {
 			// TODO(degradation): URL, Phone are lost if set
 			// TODO(degradation): If is more than one originator, it will be lost
 			p.PackageSupplier = &spdx.Supplier{
